@@ -4,7 +4,7 @@ from .. import grouplab as G
 
 ID = "C01"
 LEVEL = "exploration"
-RULE = ("trees {A=base(L), B=base(L) with one byte flipped at offset o, C=base(L)} and {A1=A2=base(L), B1=B2=flipped} (two classes of equal length that survive the early stages) (+ hard-link and symlink/-S variants) "
+RULE = ("trees {A=base(L), B=base(L) with one byte flipped at offset o, C=base(L)} and {A1=A2=base(L), B1=B2=flipped} (two classes of equal length that survive the early stages) (+ hard-link and symlink/-S variants; + two tmpfs mounts under one root whose files have equal inode numbers) "
         "for L in {0,1,4095,4096,4097,16383,16384,16385,65535,65536,65537,131073} and o in "
         "{0,4095,4096,16383,16384,L-4097,L-4096,L/2,L-1}; x hash function x pinned disk kind (x cache, prefix/suffix "
         "sizes, -t 1 in thorough); transform sub-space: keep/shrink/double/prefix programs x 5 I/O modes on trees that "
@@ -119,6 +119,13 @@ def cases(tier, seed):
             for d in disks:
                 out.append(mk(tree_hard(L, o), "hard", L, o, "metro", d))
                 out.append(mk(tree_sym(L, o), "sym", L, o, "metro", d))
+    # ---- two file systems under one root, equal inode numbers (needs `mount -t tmpfs`; skipped with a note otherwise)
+    for L, o in ((10, 9), (5000, 4999), (70000, 35000)):
+        for d in disks:
+            out.append(mk([], "twofs", L, o, "metro", d))
+        out.append(mk([], "twofs", L, o, "metro", "ssd", G.transform_args("keep", "pipe") + ["--rf-over", "1"], tr=["keep", "pipe"]))
+        if not quick:
+            out.append(mk([], "twofs", L, o, "blake3", "ssd", ["--cache"], repeat=1))
     # ---- transform sub-space
     ops = ["keep", "shrink", "double", "prefix"]
     modes = ["pipe", "in", "out", "inout", "inplace"]
@@ -142,8 +149,55 @@ def cases(tier, seed):
     return out
 
 
+def evaluate_twofs(case):
+    """Two freshly mounted tmpfs instances below the scanned root: files created in the same order get the same inode
+    numbers on different devices. Same inode number + same length + different bytes must never be grouped."""
+    import os
+    import subprocess
+    from . import c09
+    meta = case["meta"]
+    if not c09.can_mount():
+        return {"violations": [], "nontrivial": None, "outcome": "skipped_no_mount"}
+    viol = []
+    with C.Scratch() as sc:
+        mounts = []
+        try:
+            for m in ("m1", "m2"):
+                d = os.path.join(sc.tree, "r", m)
+                os.makedirs(d)
+                if subprocess.run(["mount", "-t", "tmpfs", "none", d]).returncode != 0:
+                    return {"violations": [], "nontrivial": None, "outcome": "skipped_no_mount"}
+                mounts.append(d)
+            L, o = meta["L"], meta["o"]
+            C.make_tree(sc.tree, [{"p": "r/m1/same", "k": "file", "c": ["base", L, 0]},
+                                  {"p": "r/m1/diff", "k": "file", "c": ["base", L, 3]}])
+            C.make_tree(sc.tree, [{"p": "r/m2/same", "k": "file", "c": ["base", L, 0]},
+                                  {"p": "r/m2/diff", "k": "file", "c": ["flip", L, 3, o]}])
+            ino = lambda p: os.stat(os.path.join(sc.tree, p)).st_ino
+            same_ino = ino("r/m1/diff") == ino("r/m2/diff") and os.stat(mounts[0]).st_dev != os.stat(mounts[1]).st_dev
+            rc, out, err, to = C.fclones(["group"] + case["args"] + ["r", "-f", "json"], sc, env_extra=case["env"])
+            if rc == 0 and not to:
+                rep = C.parse_json_report(out)
+                for g in rep.groups:
+                    datas = set(C.read_file(p) for p in g["paths"])
+                    if len(datas) > 1:
+                        viol.append({"kind": "non_identical_group", "transform": meta["tr"][0] if meta["tr"] else "none",
+                                     "differs_only_beyond_input_len": False,
+                                     "first_stage_that_could_see_the_difference": "same_inode_number_on_two_devices",
+                                     "detail": "files with equal inode numbers on two file systems grouped although their bytes differ: %s; args %s" % (
+                                         [C.u(p) for p in g["paths"]], case["args"])})
+        finally:
+            for d in mounts:
+                subprocess.run(["umount", d])
+    return {"violations": viol, "nontrivial": ["twofs", meta["L"], meta["o"], meta["hash"], meta["disk"], meta["extra"]] if same_ino else None,
+            "outcome": "twofs_same_inode" if same_ino else "twofs_inode_differs",
+            "sample": {"kind": "twofs", "args": case["args"], "meta": meta}}
+
+
 def evaluate(case):
     meta = case["meta"]
+    if meta["kind"] == "twofs":
+        return evaluate_twofs(case)
     obs = G.run_group(case)
     viol = []
     files = obs["files"]["files"]
